@@ -62,6 +62,7 @@ extern "C" int LLVMFuzzerTestOneInput(const uint8_t* bytes, size_t size) {
   fam::P obj = (variant == nv - 1) ? std::move(obj0) : fam::make(rc);
   fam::Bytes img = obj->bytes(0, variant);
   if (img.size() > 30000) return 0;
+  if (!obj->finding_key().empty()) return 0;  // a state an open finding is about (density: trailing empty level not representable in the image): excluded by construction
   std::string full_obs = obj->observe();
   bool has_wrap = !obj->extra_view(img).empty();
   if (path == 2 && !has_wrap) path = 0;
@@ -98,7 +99,6 @@ extern "C" int LLVMFuzzerTestOneInput(const uint8_t* bytes, size_t size) {
     if (returned && kind != 2) {
       if (r) obs = r->observe();
       if (obs != full_obs) {
-        if (kind == 1 && f == fam::F_DENS) return 0;  // open finding: trailing empty levels of a density image are not recoverable
         die(std::string(fam::name(f)) + (kind == 0 ? ": round trip differs: " : ": a strict prefix was accepted as a different sketch: ") + obs.substr(0, 300) + " VS " + full_obs.substr(0, 300));
       }
     } else if (returned && r) {
